@@ -6,7 +6,9 @@ import MxV.Props.C11
 attribute store, and re-adds deep copies of the children through `add_child`. Model side:
 * attributes: the copy's store is the original's store (values are immutable) — `copy_store_eq`,
   so both serialise the same attributes; later assignments on either produce a new store for that
-  element only — `copy_independent`;
+  element only — `copy_independent`; for every interleaving of assignments on the two elements each
+  side ends where its own assignments alone lead from the common store — `copy_isolated`,
+  `copy_untouched`;
 * children: on `Tame` content models re-adding the (copies of the) current children in their
   schema order rebuilds exactly the original state — `children_rebuild` (C11_rebuild applied to the
   ordered view); unchecked elements copy in insertion order.
@@ -29,8 +31,64 @@ theorem copy_independent (validate : Nat → PyVal → Res) (t : Tbl) (s : Store
     state with the same serialisation -/
 theorem children_rebuild (p : Particle) (ht : isTame p = true) (k : Kids) (hi : Inv p k) :
     runE p [] (addOpsK k) = .ok k := C11.C11_rebuild p ht k hi
+
+/-! ## original and copy side by side: every interleaving of assignments -/
+
+/-- one attribute assignment on one element; a refused assignment leaves the store (C04) -/
+def stepA (validate : Nat → PyVal → Res) (t : Tbl) (s : Store) (op : String × PyVal) : Store :=
+  match setAttr validate t s op.1 op.2 with
+  | .ok s' => s'
+  | .error _ => s
+def runA (validate : Nat → PyVal → Res) (t : Tbl) (s : Store) (ops : List (String × PyVal)) : Store :=
+  ops.foldl (stepA validate t) s
+
+/-- the original and its copy side by side; `true` addresses the copy -/
+def stepW (validate : Nat → PyVal → Res) (t : Tbl) (w : Store × Store) (op : Bool × String × PyVal) : Store × Store :=
+  if op.1 then (w.1, stepA validate t w.2 op.2) else (stepA validate t w.1 op.2, w.2)
+def side (b : Bool) (ops : List (Bool × String × PyVal)) : List (String × PyVal) :=
+  (ops.filter (·.1 == b)).map (·.2)
+
+theorem runW_split (validate : Nat → PyVal → Res) (t : Tbl) (ops : List (Bool × String × PyVal)) (a b : Store) :
+    ops.foldl (stepW validate t) (a, b) = (runA validate t a (side false ops), runA validate t b (side true ops)) := by
+  induction ops generalizing a b with
+  | nil => rfl
+  | cons op r ih =>
+    rw [List.foldl_cons]
+    obtain ⟨sd, kv⟩ := op
+    cases sd
+    · simp only [stepW, Bool.false_eq_true, if_false]
+      rw [ih]; simp [side, runA]
+    · simp only [stepW, if_true]
+      rw [ih]; simp [side, runA]
+
+/-- faithful and independent, for every interleaving of attribute assignments (accepted or refused)
+on the original and on the copy: each ends in the state it reaches from the common store under its
+*own* assignments alone — in particular with no assignment on the copy the original is where it
+would be without a copy, and the copy still holds the store it was taken from -/
+theorem copy_isolated (validate : Nat → PyVal → Res) (t : Tbl) (s : Store) (ops : List (Bool × String × PyVal)) :
+    ops.foldl (stepW validate t) (s, copyStore s) =
+      (runA validate t s (side false ops), runA validate t s (side true ops)) :=
+  runW_split validate t ops s s
+
+theorem copy_untouched (validate : Nat → PyVal → Res) (t : Tbl) (s : Store) (ops : List (Bool × String × PyVal))
+    (h : ops.all (·.1 == false) = true) :
+    (ops.foldl (stepW validate t) (s, copyStore s)).2 = s := by
+  rw [copy_isolated]
+  have : side true ops = [] := by
+    unfold side
+    rw [List.map_eq_nil_iff, List.filter_eq_nil_iff]
+    intro x hx
+    have := List.all_eq_true.mp h x hx
+    cases hx1 : x.1 <;> simp_all
+  simp [this, runA]
+
+example : (([(true, "color", PyVal.int 2), (false, "font-size", PyVal.int 3)] : List (Bool × String × PyVal)).foldl
+    (stepW (fun _ _ => .ok) [("font-size", 7, false), ("color", 3, false)]) ([("font-size", .int 1)], copyStore [("font-size", .int 1)])
+    == ([("font-size", .int 3)], [("font-size", .int 1), ("color", .int 2)])) = true := by decide
 end C14
 
 #print axioms C14.copy_store_eq
 #print axioms C14.copy_independent
 #print axioms C14.children_rebuild
+#print axioms C14.copy_isolated
+#print axioms C14.copy_untouched
